@@ -251,6 +251,9 @@ def simulate(I, impl, ptypes, reqs, init, tm, window):
   ptypes = [tuple(pt) for pt in ptypes]                                # per port (data bytes W, opaque bits, addr bits)
   Ws = [pt[0] for pt in ptypes]
   T = [I.msg_types(pt) for pt in ptypes]                               # per port (Req, Resp) classes
+  M = tm.get('mem_nbytes', 1 << 20)                                    # size of the backing bytearray (any size, not only 2^k)
+  if window and isinstance(window[0], int): window = [tuple(window)]
+  window = [(max(0, lo), min(M, hi)) for lo, hi in window]              # observed image ranges
   out = [[] for _ in range(nports)]
   msgs = [[T[i][0](t, o, a, l, d) for (t, o, a, l, d) in reqs[i]] for i in range(nports)]
   def rec(i): return lambda a, b: (out[i].append(fields(a)) or True)
@@ -262,7 +265,7 @@ def simulate(I, impl, ptypes, reqs, init, tm, window):
       drv = tm.get('drivers') or ['fresh'] * nports
       class TH(pm.Component):
         def construct(s):
-          s.mem = I.CL(nports, list(T), tm['stall'], tm['latency'])
+          s.mem = I.CL(nports, list(T), tm['stall'], tm['latency'], M)
           s.srcs, s.sinks, s.masters = [], [], []
           for i in range(nports):
             if drv[i] == 'rtl':
@@ -285,7 +288,7 @@ def simulate(I, impl, ptypes, reqs, init, tm, window):
         class TH(pm.Component):
           def construct(s):
             s.srcs = [I.SourceRTL(T[i][0], msgs[i], tm['src_init'][i], tm['src_intv'][i]) for i in range(nports)]
-            s.mem = I.smm.MagicMemoryRTL(nports, list(T), tm['stall'], tm['latency'])
+            s.mem = I.smm.MagicMemoryRTL(nports, list(T), tm['stall'], tm['latency'], M)
             s.sinks = [I.SinkRTL(T[i][1], [T[i][1]()] * (len(msgs[i]) + 4), tm['sink_init'][i], tm['sink_intv'][i], cmp_fn=rec(i)) for i in range(nports)]
             for i in range(nports):
               pm.connect(s.srcs[i].send, s.mem.ifc[i].req)
@@ -298,10 +301,7 @@ def simulate(I, impl, ptypes, reqs, init, tm, window):
       th.elaborate()
       for i in range(nports):
         th.mem.req_stalls[i].stall_rgen = _PyRandom((i * 7919) ^ tm['seed'])
-    if init:
-      lo = min(a for a, _ in init); hi = max(a for a, _ in init) + 1
-      d = dict(init)
-      th.mem.write_mem(lo, bytes(d.get(a, 0) for a in range(lo, hi)))
+    for a, b in init: th.mem.write_mem(a, bytes([b]))
     th.apply(pm.DefaultPassGroup())
     I.obs = obs                       # observe from the very first cycle (with latency 0 a request can be serviced in the reset epilogue)
     th.sim_reset()
@@ -318,12 +318,17 @@ def simulate(I, impl, ptypes, reqs, init, tm, window):
     for _ in range(8 + 2 * tm['latency']): th.sim_tick()     # nothing more may happen
     h['cycles'] = cycles
     h['complete'] = all(len(out[i]) == len(reqs[i]) for i in range(nports))
-    lo, hi = window
-    image = bytes(th.mem.read_mem(lo, hi - lo))
-    h['img'] = [(lo + k, image[k]) for k in range(hi - lo)]
     whole = th.mem.mem.mem
-    # bytes outside the window must still be zero; report a few offenders to Coq as image entries
-    stray = [a for a in _nonzero_outside(whole, lo, hi)][:8]
+    assert len(whole) == M, f'memory has {len(whole)} bytes, asked for {M}'
+    img = {}
+    for lo, hi in window:
+      top = min(hi, M - 1)                                             # read_mem refuses a range that ends at the last byte
+      image = bytes(th.mem.read_mem(lo, top - lo)) if top > lo else b''
+      for k in range(len(image)): img[lo + k] = image[k]
+      if hi == M: img[M - 1] = whole[M - 1]
+    h['img'] = sorted(img.items())
+    # bytes outside the observed ranges must still be zero; report a few offenders to Coq as image entries
+    stray = _nonzero_outside(whole, window)[:8]
     h['img'] += [(a, whole[a]) for a in stray]
   except Exception as e:
     h['exception'] = f'{type(e).__name__}: {str(e)[:200]}'
@@ -335,11 +340,11 @@ def simulate(I, impl, ptypes, reqs, init, tm, window):
   h['log'] = propose_log(Ws, h['reqs'], h['order'])
   return h
 
-def _nonzero_outside(arr, lo, hi):
-  n = len(arr)
-  if arr.count(0) == n: return
-  for a in range(n):
-    if arr[a] and not (lo <= a < hi): yield a
+def _nonzero_outside(arr, ranges):
+  tmp = bytearray(arr)
+  for lo, hi in ranges: tmp[lo:hi] = bytes(hi - lo)
+  if tmp.count(0) == len(tmp): return []
+  return [a for a, b in enumerate(tmp) if b]
 
 # ----------------------------------------------------------------------------- generation
 SPECIAL = [0, 1, 0x7f, 0x80, 0xff, 0x7fff, 0x8000, 0xffff, 0x7fffffff, 0x80000000, 0xffffffff]
@@ -362,30 +367,63 @@ def gen_ptypes(rng, nports):
   if rng.random() < 0.6: return [(w, 8, 32) for w in Ws]
   return [(w, rng.choice([1, 4, 8, 11]), rng.choice([20, 32, 48])) for w in Ws]
 
-def gen_reqs(rng, impl, ptypes, nreq, base, span):
+def gen_layout(rng, ptypes, hot):
+  """memory size (powers of two, non-powers of two, small, tight around the window) and 1-3 address regions spread over
+  the whole memory: anywhere, a twin that differs from another region only in one high address bit, the very top
+  (accesses are clamped so that they end at the last byte), the very bottom"""
+  maxW = max(pt[0] for pt in ptypes)
+  if hot: span = rng.choice([1, 2, 3, 4, 6])
+  else:   span = rng.choice([4, 6, 8, 12, 16]) if maxW <= 4 else rng.choice([8, 16, 24])
+  need = span + 2 * maxW
+  k = rng.random()
+  if k < 0.3:    M = 1 << 20
+  elif k < 0.45: M = rng.choice([1 << 16, 1 << 12, 1 << 10, 1 << 8])
+  elif k < 0.8:  M = rng.choice([0x3000, 0x5000, 0x1800, 0xC0000, 0x18000, 0x10010, 0xFFFF0, 1000, 3000, 0x6001, 0xA0000, 768, 0x2400])
+  else:          M = need + maxW + rng.randrange(8, 400)               # small / tight: the window is a large part of the memory
+  M = max(M, 2 * need + 4 * maxW + 8)
+  bases = [rng.randrange(maxW, M - need)]
+  for _ in range(rng.choice([0, 0, 1, 1, 2])):
+    c = rng.random()
+    if c < 0.45:                                                        # same low bits, one high bit flipped
+      b = rng.choice(bases); ks = [j for j in range(4, 20) if maxW <= (b ^ (1 << j)) < M - need]
+      if ks: bases.append(b ^ (1 << rng.choice(ks)))
+    elif c < 0.75: bases.append(M - span - rng.randrange(0, 2 * maxW))  # top of the memory, reaches the last byte
+    elif c < 0.85: bases.append(rng.randrange(0, maxW))                 # bottom
+    else:          bases.append(rng.randrange(maxW, M - need))
+  if rng.random() < 0.15: bases[0] = M - span - rng.randrange(0, 2 * maxW)
+  return M, bases, span
+
+def _fit(a, n, M): return max(0, min(a, M - n))                         # keep the access inside the memory
+
+def gen_reqs(rng, impl, ptypes, nreq, bases, span, M):
   reqs = []
   for p, (W, ob, ab) in enumerate(ptypes):
     rs = []
     for _ in range(nreq[p]):
       k = rng.random()
+      base = rng.choice(bases)
       a = base + rng.randrange(0, span)
       o = rng.getrandbits(ob)
-      if k < 0.33:   rs.append((0, o, a, rng.randrange(0, W), rng.getrandbits(8 * W) if rng.random() < 0.3 else 0))
-      elif k < 0.66: rs.append((1, o, a, rng.randrange(0, W), gen_data(rng, W)))
+      l = rng.randrange(0, W); n = W if l == 0 else l
+      if k < 0.33:   rs.append((0, o, _fit(a, n, M), l, rng.getrandbits(8 * W) if rng.random() < 0.3 else 0))
+      elif k < 0.66: rs.append((1, o, _fit(a, n, M), l, gen_data(rng, W)))
       elif k < 0.95 or impl != 'CL':
         # AMOs on the port's full data width only (len field 0); aligned half of the time so that ports collide
-        if rng.random() < 0.5: a = base + (rng.randrange(0, span) // W) * W
-        rs.append((rng.choice(AMO_CODES), o, a, 0, gen_data(rng, W)))
-      else:          rs.append((rng.choice([14, 15]), o, a, rng.randrange(0, W), rng.getrandbits(8 * W)))
+        if rng.random() < 0.5: a = (a // W) * W
+        rs.append((rng.choice(AMO_CODES), o, _fit(a, W, M), 0, gen_data(rng, W)))
+      else:          rs.append((rng.choice([14, 15]), o, _fit(a, n, M), l, rng.getrandbits(8 * W)))
     reqs.append(rs)
   return reqs
 
-def gen_reqs_hot(rng, impl, ptypes, nreq, base, span):
+def gen_reqs_hot(rng, impl, ptypes, nreq, bases, span, M):
   """tiny window, a small pool of (addr,nbytes) locations that are read again and again, separated by stores/AMOs of
   other sizes and alignments that overlap them from below / above / inside / covering (any caching, merging or
   partial-invalidation shortcut inside the memory shows up as a stale byte in a repeated read)"""
   maxW = max(pt[0] for pt in ptypes)
-  pool = [(base + rng.randrange(0, span), rng.randrange(1, rng.choice([w for w, _, _ in ptypes]) + 1)) for _ in range(rng.choice([1, 2, 2, 3]))]
+  pool = []
+  for _ in range(rng.choice([1, 2, 2, 3])):
+    n = rng.randrange(1, rng.choice([w for w, _, _ in ptypes]) + 1)
+    pool.append((_fit(rng.choice(bases) + rng.randrange(0, span), n, M), n))
   p_rd = rng.choice([0.3, 0.4, 0.5]); p_amo = rng.choice([0, 0.05, 0.15])
   reqs = []
   for p, (W, ob, ab) in enumerate(ptypes):
@@ -395,12 +433,15 @@ def gen_reqs_hot(rng, impl, ptypes, nreq, base, span):
       a0, n0 = rng.choice(pool)
       if k < p_rd:
         if n0 <= W and rng.random() < 0.85: a, l = a0, (0 if n0 == W else n0)      # the hot location, if this port can express it
-        else: a, l = base + rng.randrange(0, span), rng.randrange(0, W)
+        else:
+          l = rng.randrange(0, W); a = _fit(rng.choice(bases) + rng.randrange(0, span), W if l == 0 else l, M)
         rs.append((0, o, a, l, 0))
       else:
         # a store / AMO placed relative to one of the hot locations: starts up to W-1 bytes below it .. at its last byte
-        a = max(1, a0 + rng.randrange(-(W - 1), n0))
-        if k < 1 - p_amo: rs.append((1, o, a, rng.randrange(0, W), gen_data(rng, W)))
+        a = a0 + rng.randrange(-(W - 1), n0)
+        l = rng.randrange(0, W) if k < 1 - p_amo else 0
+        a = _fit(a, W if l == 0 else l, M)
+        if k < 1 - p_amo: rs.append((1, o, a, l, gen_data(rng, W)))
         else:             rs.append((rng.choice(AMO_CODES), o, a, 0, gen_data(rng, W)))
     reqs.append(rs)
   return reqs
@@ -559,23 +600,25 @@ def run(ctx):
     if time.time() > t_end: ctx.note('time budget reached; remaining planned cases skipped'); break
     ptypes = gen_ptypes(rng, nports)
     W = max(pt[0] for pt in ptypes)
-    base = rng.randrange(8, 1 << 14) * 4 + rng.randrange(0, 4)
-    span = rng.choice([4, 6, 8, 12, 16]) if W <= 4 else rng.choice([8, 16, 24])
     hi_n = 9 if quick else 16
     hot = rng.random() < 0.5
+    M, bases, span = gen_layout(rng, ptypes, hot)
     if hot:
-      span = rng.choice([1, 2, 3, 4, 6])
       nreq = [rng.randrange(6, 2 * hi_n) for _ in range(nports)]
-      reqs = gen_reqs_hot(rng, impl, ptypes, nreq, base, span)
+      reqs = gen_reqs_hot(rng, impl, ptypes, nreq, bases, span, M)
     else:
       nreq = [rng.randrange(2, hi_n) for _ in range(nports)]
-      reqs = gen_reqs(rng, impl, ptypes, nreq, base, span)
-    lo, hi = base - 2 * W - 16, base + span + 2 * W + 16
-    init = [(a, rng.getrandbits(8)) for a in range(base - 2, base + span + 2)] if rng.random() < 0.4 else []
+      reqs = gen_reqs(rng, impl, ptypes, nreq, bases, span, M)
+    wins = [(b - 2 * W - 16, b + span + 2 * W + 16) for b in bases]
+    init = []
+    if rng.random() < 0.4:
+      b = rng.choice(bases)
+      init = [(a, rng.getrandbits(8)) for a in range(max(0, b - 2), min(M - 1, b + span + 2))]   # write_mem cannot reach the last byte
     ntim = 2 if nports == 1 else 1          # one-port streams are run under two timings: same content expected
     for k in range(ntim):
       tm = gen_timing(rng, impl, nports, lat if k == 0 else None, st if k == 0 else None)
-      hists.append(simulate(I, impl, ptypes, reqs, init, tm, (lo, hi)))
+      tm['mem_nbytes'] = M
+      hists.append(simulate(I, impl, ptypes, reqs, init, tm, wins))
       hists[-1]['mode'] = 'hot' if hot else 'uniform'
 
   ctx.extra['build_and_sim_s'] = round(time.time() - ctx.t0, 1)
@@ -586,6 +629,8 @@ def run(ctx):
     key = (h['impl'], h['ptypes'], h['reqs'], h['init'], h['order'])
     ctx.count(key, nontrivial(h) and not h['exception'],
               cls=f"{h['impl']}:p{len(h['reqs'])}:L{h['timing']['latency']}:s{h['timing']['stall']}")
+  ctx.extra['non_pow2_memory_histories'] = sum(1 for h in hists if (lambda m: m & (m - 1))(h['timing'].get('mem_nbytes', 1 << 20)))
+  ctx.extra['last_byte_touched_histories'] = sum(1 for h in hists if any((r[2] + (h['Ws'][p] if r[3] == 0 else r[3])) == h['timing'].get('mem_nbytes', 1 << 20) for p, r in h['log']))
   ctx.extra['mixed_width_histories'] = sum(1 for h in hists if len(set(h['Ws'])) > 1)
   ctx.extra['hot_window_histories'] = sum(1 for h in hists if h.get('mode') == 'hot')
   ctx.extra['repeated_read_after_overlapping_store'] = sum(_reread_count(h) for h in hists)
@@ -622,7 +667,7 @@ def replay(ctx, r):
   rp = r['replay']
   if 'first' in rp: rp = rp['first']
   reqs = [[tuple(x) for x in rs] for rs in rp['requests_per_port (type,opaque,addr,len,data)']]
-  h = simulate(I, rp['impl'], rp.get('port_types (data bytes, opaque bits, addr bits)', rp.get('W', 4)), reqs, [tuple(x) for x in rp['init']], rp['timing'], tuple(rp['window']))
+  h = simulate(I, rp['impl'], rp.get('port_types (data bytes, opaque bits, addr bits)', rp.get('W', 4)), reqs, [tuple(x) for x in rp['init']], rp['timing'], rp['window'])
   ok, sym, detail = py_check(h)
   bad = [0] if h['exception'] else ctx.coq_bad_indices('replay', IMPORTS, DEFS, CASE_T, [case_term(h)], OK_BODY)
   print(json.dumps({'observed_service_order': h['order'], 'observed_responses': h['out'], 'exception': h['exception']}, default=str)[:3000])
